@@ -1,11 +1,11 @@
 """C09 - maze objects are values: total structural equality, consistent hash, valid ends."""
 ID = "C09"
 LEVEL = "exploration"
-LEVEL_TEXT = 'Bounded, exhaustive on the 2x2 population: all ordered pairs of the three kinds x all 16 connection structures x endpoints x shortest solutions for ==, !=, hash, set/dict de-duplication; seeded single-difference variants on larger grids; MazeDataset ==; constructor rejection of negative / too-large endpoints. Which dunder methods exist is decided by dataclass/muutils reflection at class creation, outside the reach of a contract.'
+LEVEL_TEXT = 'PROVED (unbounded, z3): LatticeMaze.__eq__ returns exactly `same kind and identical connection structure, start, end, solution` for all nine kind pairs and all array shapes and never raises; TargetedLatticeMaze.__post_init__ returns normally only with both endpoints inside the grid and raises ValueError otherwise. Bounded, exhaustive on the 2x2 population: all ordered pairs of the three kinds x all 16 connection structures x endpoints x shortest solutions for ==, !=, hash, set/dict de-duplication; seeded single-difference variants on larger grids; MazeDataset ==; constructor rejection of negative / too-large endpoints. Which dunder methods exist is decided by dataclass/muutils reflection at class creation, outside the reach of a contract.'
 LEVEL_NOTE = 'Trusted: numpy array_equal/tobytes.'
-TECHNIQUE = "bounded stand-in of the contract-based verifier: run-time checking of the real code against an independent executable statement over an enumerated scope (no function of this property is in the verified subset yet)"
-CONTRACT_MODULES = []
-PROVE = []
+TECHNIQUE = "contracts on the leaf functions discharged by z3 (pyvc) + bounded stand-in of the contract-based verifier: run-time checking of the real code against an independent executable statement over an enumerated scope (the proved leaf functions are listed in evidence; the property as a whole is decided by the bounded stand-in)"
+CONTRACT_MODULES = ['contracts.mazevalues']
+PROVE = [('maze_dataset/maze/lattice_maze.py', 'LatticeMaze.__eq__'), ('maze_dataset/maze/lattice_maze.py', 'TargetedLatticeMaze.__post_init__')]
 ASSUMPTIONS = []
 EXPLANATION = "see DESIGN.md C09"
 
